@@ -1,0 +1,27 @@
+//go:build verif
+// +build verif
+
+package leveldb
+
+import (
+	"sync/atomic"
+
+	"github.com/syndtr/goleveldb/leveldb/storage"
+)
+
+// Hook point of the C18 check (calls racing with Close); compiled only with -tags verif.
+
+var verifTableOpenedV atomic.Value // *func(storage.Storage)
+
+// VerifSetTableOpenedHook installs (with nil: removes) a process-wide function that tOps.open calls after
+// the table-cache lookup has returned and before the handle it returned is used. The argument is the storage
+// the session was opened on (it identifies the DB when several run in one process).
+func VerifSetTableOpenedHook(f func(stor storage.Storage)) {
+	verifTableOpenedV.Store(&f)
+}
+
+func verifTableOpened(s *session) {
+	if f, _ := verifTableOpenedV.Load().(*func(storage.Storage)); f != nil && *f != nil {
+		(*f)(s.stor.Storage)
+	}
+}
